@@ -23,6 +23,12 @@ def gen(rng, tier):
         yield c
     for c in setmantexp_cases(rng, 150 if tier == "quick" else 1500):
         yield c
+    # exact special-value results (a zero or infinite operand) must report Exact whatever accuracy the operands carried
+    from . import C04
+    for c in C04.gen(rng, "quick"):
+        if c["family"] in ("class-table-Add", "class-table-Sub", "class-table-Mul", "class-table-Quo", "zero-inf-alias-exhaustive"):
+            c = dict(c); c["family"] = "c04-" + c["family"]
+            yield c
     # the setters named by the property (judged by the conversion oracle of C14, which checks Acc() too)
     for c in C14.gen(rng, tier):
         if c["family"] in ("setters", "setrat-long"):
@@ -65,7 +71,9 @@ def judge_setmantexp(cases, g):
 
 
 def judge(cases, g, m):
-    a = [c for c in cases if not c.get("family", "").startswith(("c14-", "c02-"))]
+    a = [c for c in cases if not c.get("family", "").startswith(("c14-", "c02-", "c04-"))]
     b = [c for c in cases if c.get("family", "").startswith("c14-")]
     s_ = [c for c in cases if c.get("family", "") == "c02-setmantexp"]
-    return C01.judge(a, g, m) + C14.judge(b, g, m) + judge_setmantexp(s_, g)
+    from . import C04
+    d4 = [dict(c, family=c["family"][4:]) for c in cases if c.get("family", "").startswith("c04-")]
+    return C01.judge(a, g, m) + C14.judge(b, g, m) + judge_setmantexp(s_, g) + C04.judge(d4, g, m)
